@@ -253,7 +253,8 @@ namespace Givaro {
         }
         if (degB == 0) // cste
         {
-            return div(Q, A, B[0]);
+            Type_t b0; _domain.assign(b0, B[0]); // Q may be B
+            return div(Q, A, b0);
         }
 
             // Fast division: via multiplications
@@ -399,6 +400,12 @@ namespace Givaro {
     inline typename Poly1Dom<Domain,Dense>::Rep& Poly1Dom<Domain,Dense>::divmod( Rep& Q, Rep& R, const Rep& A,  const Rep& B) const
     // returns Q such that A = B Q + R
     {
+        if ((&Q == &A) || (&Q == &B)) { // A and B are still needed for the remainder
+            Rep T; init(T);
+            divmod(T,R,A,B);
+            assign(Q,T);
+            return R;
+        }
         div(Q,A,B);
         return maxpy(R,Q,B,A); // R <-- A - Q * B
     }
@@ -407,6 +414,12 @@ namespace Givaro {
     inline typename Poly1Dom<Domain,Dense>::Rep& Poly1Dom<Domain,Dense>::divmodin( Rep& Q, Rep& R, const Rep& B) const
     // returns Q such that R = B Q + newR
     {
+        if (&Q == &B) { // B is still needed for the remainder
+            Rep T; init(T);
+            divmodin(T,R,B);
+            assign(Q,T);
+            return R;
+        }
         div(Q, R, B);
         return maxpyin(R, Q, B);
     }
